@@ -432,11 +432,11 @@ def check_single(ctx, rng):
 
 def check_anchor(ctx, rng):
     """Construction must be refused for anchors that do not match the roots of trust or are not properly self-signed."""
-    for i in range(ctx.n(32, 800)):
+    for i in range(ctx.n(40, 800)):
         depth = rng.randint(1, 3)
         H = Hierarchy(rng, depth, '%04x' % rng.getrandbits(16))
         kind = ['ok', 'wrong-name', 'level-cert-as-anchor', 'not-self-signed', 'tampered', 'data-as-anchor', 'hmac-self-signed',
-                'self-signed-non-root-name'][i % 8]
+                'self-signed-non-root-name', 'foreign-locator-foreign-signature', 'foreign-locator-garbage-signature'][i % 10]
         k0 = H.keys[0]
         if kind == 'ok':
             anchor = H.cert_wires[0]
@@ -455,6 +455,13 @@ def check_anchor(ctx, rng):
         elif kind == 'hmac-self-signed':
             from ndn.security.signer.sha256_hmac_signer import HmacSha256Signer
             anchor = bytes(self_sign(k0.name, k0.pub, HmacSha256Signer(k0.name, k0.pub))[1])     # "signed" with the public key as HMAC secret
+        elif kind == 'foreign-locator-foreign-signature':
+            # right name and key, but signed by - and naming as its key - somebody else's key: not self-signed
+            other = Key(rng, 'ec', [C(b'elsewhere'), C(b'KEY'), C(b'k')])
+            anchor = bytes(self_sign(k0.name, k0.pub, other.signer(other.name))[1])
+        elif kind == 'foreign-locator-garbage-signature':
+            other = Key(rng, 'ec', [C(b'elsewhere'), C(b'KEY'), C(b'k')])
+            anchor = flip_sig(bytes(self_sign(k0.name, k0.pub, other.signer(other.name))[1]))
         elif kind == 'tampered':
             anchor = flip_sig(H.cert_wires[0])
         else:
